@@ -207,6 +207,8 @@ class HarnessA:
             prop = "C01" if "exceeds capacity" in str(e) else self.crash_prop()
             self.viol.append(Viol(prop, "process-crash", f"{prop}|process-crash:{type(e).__name__}@{where}|{self.label}|{self.featstr()}",
                                   msg, self.env.seq, self.env.now, self.opi))
+            self.viol.append(Viol("C20", "process-crash", f"C20|process-crash:{type(e).__name__}@{where}|{self.label}|",
+                                  msg, self.env.seq, self.env.now, self.opi))
             self.stopped = True
 
     def crash_prop(self):
